@@ -152,7 +152,7 @@ def _one_run(args):
     known_own = [v for v in w.known_hits if prop in v.props]
     res = dict(idx=idx, seed=seed, n_ops=len(ops), stats=dict(w.stats),
                own=[v.as_dict() for v in own[:1]],
-               foreign=Counter(";".join(v.props) + ":" + v.sig.split("|")[0] for v in foreign),
+               foreign=Counter(";".join(v.props) + ":" + v.sig.split("|")[0] + "|" + v.sig.split("|")[-1] for v in foreign),
                known=[(v.sig, v.known_entry.get("id")) for v in known_own],
                wall=time.time() - t0, log_digest=log_digest(w),
                state_digests=state_digests(mw), kinds=op_kind_pairs(ops))
